@@ -2479,6 +2479,19 @@ pub fn check_all(out: &RunOut) -> Vec<Violation> {
         "C19" => {
             check_c19(&ix, &mut v);
         }
+        "C19W" => {
+            // the window in force is min(configured or overridden, peer's Receive Maximum): C05's oracle
+            // computes exactly that limit (families::send_limit); report it as C19's clause
+            let mut w = Vec::new();
+            check_c05(&ix, &mut w);
+            for x in w {
+                if x.prop == "C05" {
+                    v.push(Violation { prop: "C19", key: x.key.replacen("C05/", "C19/send-", 1), msg: x.msg, at_seq: x.at_seq });
+                } else {
+                    v.push(x);
+                }
+            }
+        }
         "C15" => {
             check_c15(&ix, &mut v);
             check_c07(&ix, &mut v);
